@@ -106,7 +106,7 @@ Section MidCap.
 
   Definition RCap (r : mres) : Prop :=
     match r with
-    | MOk ret consumed out h4 h8 hw => hw <= hwlim /\ 0 <= ret <= hw
+    | MOk ret consumed out h4 h8 hw => hw <= hwlim /\ 1 <= ret <= hw
     | MFail h4 h8 hw => hw <= hwlim /\ lim <> NotLimited
     | MUndef => lim = FillOutput
     end.
